@@ -26,6 +26,19 @@ def install(reg):
         I.path.event("pool.join", a[0])
         return NONE
 
+    # pathlib / os: file-system calls may fail (assumed contract): a component of the path exists as a file, no permission, ...
+    reg.obj_props["Path.parent"] = lambda I, o, n: Obj("Path", {"s": o.f.get("s", NONE), "name": Sym(z3.Const(fresh("parent_name"), Misc), "str"), "parent_of": o})
+
+    def fs_call_may_fail(I, a, k, n):
+        assumed(I, "file-system calls (Path.mkdir, os.makedirs, Path.touch) either succeed or raise OSError")
+        I.path.event("fs.call", a[0] if a else None)
+        if I.path.choose(2, "file-system-call-fails") == 1:
+            raise RaiseSig("OSError", n)
+        return NONE
+    for _nm in ("Path.mkdir", "Path.touch", "os.makedirs", "os.mkdir"):
+        reg.handlers[_nm] = fs_call_may_fail
+    reg.import_ok.add("os.makedirs")
+
     # multiprocessing.Pool: map / imap return results in the order of the inputs; imap_unordered / map_async(...) do not
     for _nm in ("map", "imap", "imap_unordered", "starmap", "map_async", "apply_async"):
         reg.obj_props[f"Pool.{_nm}"] = (lambda I, o, n, _n=_nm: Fn(lambda I2, a, k, n2: NONE, f"pool.{_n}"))
@@ -38,7 +51,7 @@ class PoolHandlerExit(Contract):
            "log_likelihood and log_prior are the very objects they were on entry; the pool is closed and joined iff close_pool (and a pool was given)")
 
     def shapes(self):
-        return [{"pool": p, "prior": q, "exc": e, "body": b} for p in (0, 1) for q in (0, 1) for e in (0, 1) for b in ("nothing", "rebinds")]
+        return [{"pool": p, "prior": q, "exc": e, "body": b} for p in (0, 1) for q in (0, 1) for e in (0, 1) for b in ("nothing", "rebinds", "rebinds-prior")]
 
     def setup(self, I, shape):
         L0 = Fn(lambda I2, a, k, n: NONE, "user_log_likelihood")
@@ -58,6 +71,9 @@ class PoolHandlerExit(Contract):
         if shape["body"] == "rebinds":
             # the body may itself replace the callables (e.g. a nested context): exit must still restore the entry values
             inst.f["log_likelihood"] = Fn(lambda I2, a, k, n: NONE, "inner_override")
+        if shape["body"] == "rebinds-prior":
+            # ... or use another prior for the duration of the body (whether or not the prior is parallelised)
+            inst.f["log_prior"] = Fn(lambda I2, a, k, n: NONE, "temporary_prior_set_by_the_body")
         exc = Str("RuntimeError") if shape["exc"] else NONE
         return Pre(h, [exc, exc, exc], ghost={"inst": inst, "L0": L0, "P0": P0, "pool": pool, "close": close, "shape": shape, "during": during})
 
@@ -65,7 +81,7 @@ class PoolHandlerExit(Contract):
         p, g = I.path, pre.ghost
         q = self.qual
         inst, sh = g["inst"], g["shape"]
-        tag = f"[pool={'yes' if sh['pool'] else 'None'}, {'exception' if sh['exc'] else 'normal'} exit]"
+        tag = f"[pool={'yes' if sh['pool'] else 'None'}, {'exception' if sh['exc'] else 'normal'} exit{', body rebinds the prior' if sh['body'] == 'rebinds-prior' else ''}{', prior parallelised' if sh['prior'] else ''}]"
         p.prove(z3.BoolVal(inst.f["log_likelihood"] is g["L0"]), f"{q}:C19:log_likelihood restored to the entry object {tag}")
         p.prove(z3.BoolVal(inst.f["log_prior"] is g["P0"]), f"{q}:C19:log_prior restored to the entry object {tag}")
         closes = [e for e in p.events if e[0] == "pool.close"]
@@ -169,6 +185,66 @@ class AutoCheckpoint(Contract):
         self._restored(I, pre, "normal exit")
 
     def post_raise(self, I, pre, sig):
+        g = pre.ghost
+        if not g["yielded"]:
+            # the context could not be entered (e.g. a file-system call failed before the yield): nothing of it may stay behind
+            a, sh = g["a"], g["shape"]
+            tag = f"[{sig.exc} before the body; previous defaults {'present' if sh['prev'] else 'absent'}]"
+            if not sh["prev"]:
+                I.path.prove(z3.BoolVal("_checkpoint_defaults" not in a.f), f"{self.qual}:C19:C14:a context that fails to start leaves no checkpoint defaults behind {tag}")
+            else:
+                now = a.f.get("_checkpoint_defaults")
+                same = now is g["prev"] and set(now.d) == set(g["snap"]) and all(now.d[k] is g["snap"][k] for k in g["snap"])
+                I.path.prove(z3.BoolVal(same), f"{self.qual}:C19:C14:a context that fails to start leaves the enclosing defaults in force {tag}")
+            return
         if sig.exc not in ("UserError", "KeyboardInterrupt") or not pre.ghost["shape"]["exc"]:
             return super().post_raise(I, pre, sig)
         self._restored(I, pre, "exception in the body")
+
+
+class EnablePool(Contract):
+    qual = "aspire:Aspire.enable_pool"
+    properties = ("C19",)
+    doc = ("every call returns its *own* handler for the given pool and options: the stack discipline behind 'restored at every nesting depth' needs one "
+           "saved-originals slot per active context, so a second call (same pool, other options, possibly while the first context is active) must not "
+           "get the first call's handler; the instance itself is not changed by the call")
+
+    def shapes(self):
+        return [{"first": f, "close2": c2} for f in (0, 1) for c2 in (0, 1)]
+
+    def setup(self, I, shape):
+        L0 = Fn(lambda I2, a, k, n: NONE, "user_log_likelihood")
+        P0 = Fn(lambda I2, a, k, n: NONE, "user_log_prior")
+        L0.sig_names = ["samples", "map_fn"]
+        P0.sig_names = ["samples", "map_fn"]
+        inst = Obj("Aspire", {"log_likelihood": L0, "log_prior": P0})
+        pool = Obj("Pool", {"closed": B(False)})
+        g = {"inst": inst, "pool": pool, "shape": shape, "first": None}
+        if shape["first"]:
+            # an earlier call with the same pool and the opposite options (its context may still be active)
+            info = I.front.get(self.qual)
+            I.depth += 1
+            try:
+                g["first"] = I.call_repo(info, inst, [pool], {"close_pool": B(not shape["close2"]), "parallelize_prior": B(True)}, None, force_inline=True)
+            finally:
+                I.depth -= 1
+        g["attrs0"] = dict(inst.f)
+        return Pre(inst, [pool], {"close_pool": B(bool(shape["close2"]))}, ghost=g)
+
+    def post(self, I, pre, r):
+        p, g = I.path, pre.ghost
+        q = self.qual
+        sh = g["shape"]
+        tag = f"[{'second call with the same pool' if sh['first'] else 'first call'}, close_pool={bool(sh['close2'])}]"
+        ok = isinstance(r, Obj) and r.cls == "PoolHandler"
+        p.prove(z3.BoolVal(ok), f"{q}:C19:returns a pool handler {tag}")
+        if not ok:
+            return
+        p.prove(z3.BoolVal(r is not g["first"]), f"{q}:C19:every call gets its own handler (own slot for the saved originals) {tag}")
+        p.prove(z3.BoolVal(r.f.get("pool") is g["pool"] and r.f.get("_aspire_instance") is g["inst"]), f"{q}:C19:the handler is bound to this instance and the given pool {tag}")
+        cp = r.f.get("close_pool")
+        p.prove(I.truth(cp) == z3.BoolVal(bool(sh["close2"])) if cp is not None else z3.BoolVal(False), f"{q}:C19:the handler closes the pool exactly when this call asked for it {tag}")
+        pp = r.f.get("parallelize_prior")
+        p.prove(z3.Not(I.truth(pp)) if pp is not None else z3.BoolVal(False), f"{q}:C19:the prior is parallelised only when this call asked for it {tag}")
+        p.prove(z3.BoolVal(g["inst"].f.get("log_likelihood") is g["attrs0"]["log_likelihood"] and g["inst"].f.get("log_prior") is g["attrs0"]["log_prior"]),
+                f"{q}:C19:creating the handler does not touch the instance's callables {tag}")
